@@ -10,11 +10,20 @@ type arena struct {
 	all byteRanges // every allocation handed out (full capacity): "is this address an input?"
 	br  byteRanges
 	mis int // rotating misalignment for byte data (0..7)
+	// twin: see arena_common.go
+	twin bool
+	n    int
+}
+
+// exact reports whether the next twin slice gets cap == len.
+func (a *arena) exact() bool {
+	a.n++
+	return a.twin && a.n%2 == 0
 }
 
 const ArenaReadOnly = false
 
-func newArena() *arena { return &arena{} }
+func newArena(twin bool) *arena { return &arena{twin: twin} }
 
 // Every slice handed out has spareCap elements of SPARE CAPACITY behind its
 // length, filled with a sentinel: a callee that appends to (or re-slices and
@@ -25,8 +34,14 @@ func (a *arena) u64s(x []uint64) []uint64 {
 	copy(out, x)
 	for i := len(x); i < len(out); i++ {
 		out[i] = sentinel64
+		if a.twin {
+			out[i] = twin64
+		}
 	}
 	a.all.add(uintptr(unsafe.Pointer(&out[0])), uintptr(8*len(out)))
+	if a.exact() {
+		return out[:len(x):len(x)]
+	}
 	return out[:len(x)]
 }
 func (a *arena) i32s(x []int32) []int32 {
@@ -34,8 +49,14 @@ func (a *arena) i32s(x []int32) []int32 {
 	copy(out, x)
 	for i := len(x); i < len(out); i++ {
 		out[i] = sentinel32
+		if a.twin {
+			out[i] = twin32
+		}
 	}
 	a.all.add(uintptr(unsafe.Pointer(&out[0])), uintptr(4*len(out)))
+	if a.exact() {
+		return out[:len(x):len(x)]
+	}
 	return out[:len(x)]
 }
 func (a *arena) bytes(x []byte) []byte {
@@ -47,9 +68,15 @@ func (a *arena) bytes(x []byte) []byte {
 	copy(out, x)
 	for i := len(x); i < len(out); i++ {
 		out[i] = sentinel8
+		if a.twin {
+			out[i] = twin8
+		}
 	}
 	a.br.add(uintptr(unsafe.Pointer(&out[0])), uintptr(len(x)))
 	a.all.add(uintptr(unsafe.Pointer(&out[0])), uintptr(len(out)))
+	if a.exact() {
+		return out[:len(x):len(x)]
+	}
 	return out[:len(x)]
 }
 func (a *arena) strs(x []string) []string {
